@@ -39,6 +39,7 @@ func init() {
 			"'eligible' is defined by the reference model as: not a data: URI, and http(s) URL for the remote call / anything else for the local call; the generator only emits hrefs that are unambiguous under this definition",
 			"the set (not the order) of references named in the error is compared; the MIME type of a data URI must be the served Content-Type when one was served (text/xml -> image/svg+xml accepted) and non-empty otherwise",
 			"a call that the simulator cancelled, or that hit the documented 5-minute limit, may return with any subset of the successful replacements applied (each applied completely), but must return an error if images are missing",
+			"progress: a call that has nothing in flight any more (run quiescent, no goroutine held at a scheduling point, no request left unanswered, no cancellation pending) must have returned; coming back only at the global timeout from such a state is a violation",
 			"workers that outlive a cancelled call are run to completion (without new faults) before the next call of the same run starts",
 		},
 		RealStub: map[string]string{"lib/imgbundler (bundle, runWorkers, worker, httpGet, cache)": "real", "net/http client": "real client over a simulated RoundTripper", "HTTP servers": "stub (tape-driven responses and body chunking)", "file system": "real kernel on a tmp sandbox with tape-driven fault points at openat/read", "clock, timers, context deadlines": "synctest fake clock", "goroutine scheduling": "simulator (park points worker.start/worker.done + every I/O step + every attempt to lock imgbundler's mutex)", "map iteration / select order": "runtime seam, salted per run"},
@@ -90,6 +91,8 @@ var pipeRealStub = map[string]string{
 	"d2svg, d2sketch, d2fonts, textmeasure":                                        "real (C25)",
 	"import file system":                                                           "in-memory fs.FS whose Open is a scheduling point",
 	"caller tasks":                                                                 "goroutines released one at a time by the simulator at stage boundaries (start, import, compile, layout per nested graph, render per board) and at about 12 600 statement-level scheduling points written into d2's pipeline packages by a source overlay (no change to /repo)",
+	"goroutines that the pipeline starts itself (none on the unchanged tree)":      "scheduled like tasks when started as go func(){...}() (announced by the source overlay) and joined through sync.WaitGroup (Wait is a scheduling point, sync overlay); go f(x), errgroup and channel rendezvous are not",
+	"layout plugins (C25)":                                                         "half of the specs reach dagre/ELK through d2plugin's bundled plugin objects, hydrated once per process from the flag defaults as the CLI does; the others through DefaultLayout",
 	"map iteration / select":                                                       "runtime seam: a function of the tape, re-derived at every release",
 	"wall clock (time.Now) of a task":                                              "simulated: advances by a tape-chosen rate (50 ns ... 2 ms) per scheduling point, drawn anew for every slice",
 	"reference":                                                                    "separate OS process, different seed, reversed order, no neighbours",
@@ -111,7 +114,7 @@ func init() {
 	props["C25"] = propSpec{
 		Engine: "pipesim", Level: "exploration",
 		QuickS: 90, ThoroughS: 1800, DetSamples: 4, DetSamplesT: 40, WatchdogS: 900,
-		Rule: "as C08 but through d2lib.Compile (dagre, ELK in ~10% of specs), d2exporter and d2svg.Render of every board, with sketch mode, theme, dark theme, pad and center drawn from the tape; the compared result is the SVG bytes of all boards. Scripts are limited to 2.5 KB quick / 20 KB thorough to bound layout time.",
+		Rule: "as C08 but through d2lib.Compile (dagre, ELK in ~10% of specs; one session in six is ELK-only through the plugin object, with generated self-loops), d2exporter and d2svg.Render of every board, with sketch mode, theme, dark theme, pad and center drawn from the tape; the compared result is the SVG bytes of all boards. Scripts are limited to 2.5 KB quick / 20 KB thorough to bound layout time.",
 		Assumptions: []string{
 			"as C08; shared state that exists here (font registry under its mutex, goldmark instance, dagre plugin options) is exercised at stage and at statement granularity; a task holding a lock is never stopped",
 			"Math.random inside the bundled JS engines would draw from the seam (runtime.rand) and show as a cross-seed difference",
